@@ -113,6 +113,22 @@ fn script_decode(req: &Value) -> R {
     if !bo(req, "no_tokens") {
         o["tokens"] = bits_json(&s.to_script_bits());
     }
+    if bo(req, "extras") {
+        // every other way of getting bytes out of the same element list
+        let bits = s.to_script_bits();
+        o["static_bytes_eq"] = json!(Script::script_bits_to_bytes(&bits) == out);
+        o["from_bits_eq"] = json!(Script::from_script_bits(bits.clone()).to_bytes() == out);
+        let mut e = Script::default();
+        e.push_array(&bits);
+        o["push_array_eq"] = json!(e.to_bytes() == out);
+        let mut e2 = Script::default();
+        for b in &bits {
+            e2.push(b.clone());
+        }
+        o["push_each_eq"] = json!(e2.to_bytes() == out);
+        // reparse of the output (fixed point)
+        o["reparse_eq"] = json!(Script::from_bytes(&out).map(|x| x.to_bytes() == out).unwrap_or(false));
+    }
     if bo(req, "asm") {
         o["asm"] = json!(s.to_asm_string());
         o["xasm"] = json!(s.to_extended_asm_string());
